@@ -301,6 +301,25 @@ class SubOther(pg.Functor):
     return (self.a, self.b, inner(y=2), self.a, self.b)
 
 
+class SubFact(pg.Functor):
+  """A subclassed functor that calls ITSELF (the same instance) with new call-time arguments."""
+  n: int
+  acc: int = 1
+
+  def _call(self):
+    if self.n <= 1:
+      return (self.acc, self.n)
+    inner = self(self.n - 1, self.acc * self.n, override_args=True)
+    # after the inner call returns, this activation still sees its own arguments
+    return inner + (self.n, self.acc)
+
+
+def _py_fact(n, acc=1):
+  if n <= 1:
+    return (acc, n)
+  return _py_fact(n - 1, acc * n) + (n, acc)
+
+
 def nested_item(rec, _):
   """Call-time arguments of nested subclassed functors (the plain Python equivalent is the oracle)."""
   tr = dict(kind='nested')
@@ -315,6 +334,9 @@ def nested_item(rec, _):
               ('SubShift(1)(x, override)', lambda: SubShift(1)(x, override_args=True), py_shift(x)),
               ('SubShift(x, 7)(y=1, override)', lambda: SubShift(x, 7)(y=1, override_args=True), py_shift(x, 1)),
               ('SubShift(x)()', lambda: SubShift(x)(), py_shift(x)),
+              ('SubFact()(3)', lambda: SubFact()(3), _py_fact(3)),
+              ('SubFact(4)()', lambda: SubFact(4)(), _py_fact(4)),
+              ('SubFact(2, 5)(3, override)', lambda: SubFact(2, 5)(3, override_args=True), _py_fact(3, 5)),
               ('SubOther()(a)', lambda: SubOther()(4), py_other(4)),
               ('SubOther(4)(b=6)', lambda: SubOther(4)(b=6), py_other(4, 6)),
               ('SubOther(4, 5)(9, override)', lambda: SubOther(4, 5)(9, override_args=True), py_other(9, 5))]
